@@ -145,6 +145,18 @@ def perturb(rng, pkts, kind):
             new = dict(out[a], frame=rebuild(a, pa[:rng.randrange(1, len(pa))]))
             j = rng.randrange(a + 1, len(out) + 1)
         out.insert(j, new)
+    elif kind == "coalesced-after":
+        # S_i, S_i+1 and at least one more segment of the same direction already captured; then the retransmission S_i+S_i+1 with S_i's sequence
+        # number, right behind that later segment or at the very end
+        same = {}
+        for i in data:
+            same.setdefault(out[i]["isserver"], []).append(i)
+        triples = [(idx[k], idx[k + 1], idx[k + 2]) for idx in same.values() for k in range(len(idx) - 2)]
+        if not triples:
+            return None
+        a, b, c = rng.choice(triples)
+        new = dict(out[a], frame=rebuild(a, payload(a) + payload(b)))
+        out.insert(rng.choice([c + 1, len(out)]), new)
     elif kind == "late":
         # a data segment is overtaken by the next 1..3 data segments OF ITS OWN DIRECTION: the slots that direction's segments occupy in
         # the capture stay where they are (the interleaving with the other direction is untouched), only which segment sits in which
